@@ -69,6 +69,7 @@ func c15Gen(rg *mon.Rng) *c15stmt {
 	if rg.Bool() {
 		b.Kw("CREATE USER")
 		b.Ident(s.user)
+		c15GluePrefix(rg, b)
 		b.Kw("WITH PASSWORD")
 		b.Str(s.pw)
 		s.pwTok = len(b.Toks) - 1
@@ -79,6 +80,7 @@ func c15Gen(rg *mon.Rng) *c15stmt {
 	} else {
 		b.Kw("SET PASSWORD FOR")
 		b.Ident(s.user)
+		c15GluePrefix(rg, b)
 		b.Op("=")
 		b.Str(s.pw)
 		s.pwTok = len(b.Toks) - 1
@@ -86,6 +88,15 @@ func c15Gen(rg *mon.Rng) *c15stmt {
 	}
 	s.toks = b.Toks
 	return s
+}
+
+// c15GluePrefix sometimes glues a bare word to the opening quote of the user
+// name just written (`abc"name"`), a spelling the scanner is known to accept.
+func c15GluePrefix(rg *mon.Rng, b *gen.Builder) {
+	t := &b.Toks[len(b.Toks)-1]
+	if strings.HasPrefix(t.Text, `"`) && rg.P(0.1) {
+		t.Text = rg.Pick("abc", "x1", "TRUE", "_", "for", "password") + t.Text
+	}
 }
 
 // c15Split sometimes continues the password in one or two adjacent string
@@ -244,7 +255,7 @@ func c15Known(text string, spans []c15span) string { return "" }
 
 func checkC15(c *Ctx) (string, bool, []string) {
 	r := c.R
-	rule := "CREATE USER ... WITH PASSWORD / SET PASSWORD FOR ... = statements with passwords built from unique markers joined by hostile separators (spaces, both quotes, backslash, =, ;, comment openers, newline escape, non-ASCII, the words 'password'/'with password'), hostile user names, every keyword case and whitespace layout incl. none around '=', comments in gaps, the password continued in adjacent string literals (judged only if the parser accepts that), an earlier Sanitize call on a same-length text with the same beginning and end but no password clause, one separator replaced by a blank-like character outside [ \\t\\n\\r] (VT, FF, NEL, NBSP, EM SPACE, LINE SEPARATOR, BOM, NUL, ...) in a fifth of them; alone and among 1-4 statements of other kinds. Marker search in String() and Sanitize(); exact preservation of the text outside the literal spans; Sanitize(t)==t for statements of all other kinds. Non-trivial = password has a separator or layout differs from canonical; distinct by text."
+	rule := "CREATE USER ... WITH PASSWORD / SET PASSWORD FOR ... = statements with passwords built from unique markers joined by hostile separators (spaces, both quotes, backslash, =, ;, comment openers, newline escape, non-ASCII, the words 'password'/'with password'), hostile user names (also with a bare word glued to the opening quote), every keyword case and whitespace layout incl. none around '=', comments in gaps, the password continued in adjacent string literals (judged only if the parser accepts that), an earlier Sanitize call on a same-length text with the same beginning and end but no password clause, one separator replaced by a blank-like character outside [ \\t\\n\\r] (VT, FF, NEL, NBSP, EM SPACE, LINE SEPARATOR, BOM, NUL, ...) in a fifth of them; alone and among 1-4 statements of other kinds. Marker search in String() and Sanitize(); exact preservation of the text outside the literal spans; Sanitize(t)==t for statements of all other kinds. Non-trivial = password has a separator or layout differs from canonical; distinct by text."
 	assume := []string{"only parser-accepted texts are judged", "the replacement text for the literal is not prescribed, only that it carries no password material"}
 	if c.Replay != nil {
 		local := map[string]int64{}
